@@ -144,7 +144,11 @@ class PortMachine(Machine):
                 if x in operands and not cfg["dups"]:
                     continue
                 operands.append(x)
-            if w.random() < 0.3 and n > 1:
+            if cfg["dups"] and plat == "ios" and w.random() < 0.5:
+                # a repeated operand next to a gap: [a, a, a+2]
+                a = self._operand(w)
+                operands = [a, a, min(MAXP, a + 2)]
+            elif w.random() < 0.3 and n > 1:
                 # adjacent values
                 base = self._operand(w)
                 operands = [min(MAXP, base + i) for i in range(n)]
@@ -188,6 +192,27 @@ class PortMachine(Machine):
         t = s.randrange(len(self.slots))
         slot = self.slots[t]
         r = s.random()
+        if r < 0.03:
+            return dict(op="port_clear", t=t, how=s.choice(["line", "line", "protocol"]))
+        if r < 0.07 and len(slot["operands"]) >= 1:
+            # same operator, other operands with the same digit string ("neq 1 2" / "neq 12")
+            digits = "".join(str(o) for o in slot["operands"])
+            opn = slot["op"]
+            cand = None
+            if len(slot["operands"]) > 1 and opn in ("eq", "neq") and int(digits) <= MAXP:
+                cand = [int(digits)]
+            elif len(digits) >= 2 and opn in ("eq", "neq") and slot["plat"] == "ios":
+                k_ = s.randint(1, len(digits) - 1)
+                a_, b_ = int(digits[:k_]), int(digits[k_:])
+                if a_ >= 1 and b_ >= 1 and not digits[k_:].startswith("0"):
+                    cand = [a_, b_]
+            elif opn == "range" and len(digits) >= 3:
+                k_ = s.randint(1, len(digits) - 1)
+                a_, b_ = int(digits[:k_]), int(digits[k_:])
+                if 1 <= a_ <= MAXP and 1 <= b_ <= MAXP and not digits[k_:].startswith("0"):
+                    cand = [a_, b_]
+            if cand:
+                return dict(op="port_set_line", t=t, line=" ".join([opn, *map(str, cand)]))
         if r < 0.22:
             if cfg["bad"] and w.random() < 0.3:
                 line = w.choice(["eq", "lt 1 2", "range 5", "range 1 2 3", "gt", "xx 5",
@@ -564,6 +589,32 @@ class PortMachine(Machine):
                                                   f"{pre[0]!r} -> {src['obj'].line!r}")
         self._check(src["obj"], src, "giver after items transfer")
         self._check(dst["obj"], dst, "taker after items transfer")
+        return "ok"
+
+    def _op_port_clear(self, op):
+        """Empty the expression (no port restriction): every view must be empty; a later line
+        assignment starts from a clean object."""
+        slot = self._slot(op["t"])
+        if slot is None:
+            return "noop"
+        p = slot["obj"]
+        _ = p.sport, p.data()  # views are read before the change, as callers do
+        if op["how"] == "line":
+            p.line = ""
+        else:
+            p.protocol = "ip"
+        got = (p.line, list(p.ports), p.sport, p.data()["sport"], list(p.data()["ports"]))
+        if op["how"] == "line" and (p.operator or p.items):
+            self._fail("C08.clear", f"after line='' operator={p.operator!r} items={p.items}")
+        if got != ("", [], "", "", []) and op["how"] == "line":
+            self._fail("C08.clear", f"emptied expression still shows line/ports/sport = {got}")
+        if decode(p.sport) != frozenset(p.ports) or p.data()["sport"] != p.sport:
+            self._fail("C08.clear", f"after emptying via {op['how']}: sport {p.sport!r} does not "
+                                    f"encode ports {list(p.ports)[:5]}")
+        if op["how"] == "protocol" and (p.line != "" or p.sport != p.data()["sport"]):
+            self._fail("C08.clear", f"protocol=ip: line={p.line!r} sport={p.sport!r} "
+                                    f"data.sport={p.data()['sport']!r}")
+        slot["obj"] = self._build(slot)
         return "ok"
 
     def _op_port_rebuild(self, op):
